@@ -236,7 +236,78 @@ func c20Convert(t *c20Type, src reflect.Value) (dst reflect.Value, err error, pa
 }
 
 type c20Stats struct {
-	ok, refuse, chains, decodeFrom, codecSkip int
+	ok, refuse, chains, decodeFrom, codecSkip, usedDst int
+}
+
+var c20Used = map[string]reflect.Value{}
+
+// c20Size: number of elements / entries / fields reachable, a rough measure of "how much is in there"
+func c20Size(v reflect.Value) int {
+	switch v.Kind() {
+	case reflect.Slice:
+		n := v.Len()
+		for i := 0; i < v.Len(); i++ {
+			n += c20Size(v.Index(i))
+		}
+		return n
+	case reflect.Map:
+		n := v.Len()
+		it := v.MapRange()
+		for it.Next() {
+			n += c20Size(it.Value())
+		}
+		return n
+	case reflect.Struct:
+		n := 0
+		for i := 0; i < v.NumField(); i++ {
+			n += c20Size(v.Field(i))
+		}
+		return n
+	}
+	return 0
+}
+
+func (t *c20Type) hasMap() bool {
+	switch t.K {
+	case "map":
+		return true
+	case "slice":
+		return t.E.hasMap()
+	case "struct":
+		for i := range t.Fs {
+			if t.Fs[i].T.hasMap() {
+				return true
+			}
+		}
+	}
+	return false
+}
+
+// hasFieldsMissingIn: some struct of t (at any depth) has a field the corresponding struct of s lacks;
+// the property says nothing about such fields, so a reused destination may keep what it held there
+func (t *c20Type) hasFieldsMissingIn(s *c20Type) bool {
+	switch t.K {
+	case "slice":
+		return s.K == "slice" && t.E.hasFieldsMissingIn(s.E)
+	case "map":
+		return s.K == "map" && (t.Key.hasFieldsMissingIn(s.Key) || t.Val.hasFieldsMissingIn(s.Val))
+	case "struct":
+		if s.K != "struct" {
+			return false
+		}
+		for i := range t.Fs {
+			var m *c20Type
+			for jx := range s.Fs {
+				if strings.EqualFold(s.Fs[jx].N, t.Fs[i].N) {
+					m = &s.Fs[jx].T
+				}
+			}
+			if m == nil || t.Fs[i].T.hasFieldsMissingIn(m) {
+				return true
+			}
+		}
+	}
+	return false
 }
 
 func c20One(j *journal, v *c20Vec, raw json.RawMessage, st *c20Stats) {
@@ -273,6 +344,32 @@ func c20One(j *journal, v *c20Vec, raw json.RawMessage, st *c20Stats) {
 	}
 	if k, d := v.S.diff(v.V, src, "src"); d != "" {
 		j.fail("source-mutated/"+k, d, raw)
+	}
+	// the same conversion into a destination that is not fresh: it holds the result of an earlier
+	// conversion into the same type (a reused variable).  Every element, key and field must equal
+	// the source's all the same - nothing of the earlier content may survive where the source speaks
+	key := v.T.String()
+	// (maps are left out: like encoding/json, the code merges into a map that already exists - the
+	// statement does not say whether a reused map is emptied first, so no verdict is derived)
+	if prev, ok := c20Used[key]; ok && !v.T.hasFieldsMissingIn(&v.S) && !v.T.hasMap() {
+		var err2 error
+		if pn := guarded(func() { err2 = conversion.ConvertFrom(prev.Interface(), src.Interface()) }); pn != "" {
+			j.fail("convert-panics/used-destination-"+top, pn, raw)
+		} else if err2 != nil {
+			j.fail("compatible-refused/used-destination-"+top, fmt.Sprintf("%s into a used %s: %v", v.S.String(), v.T.String(), err2), raw)
+		} else if k, d := v.T.diff(v.Out, prev.Elem(), "dst"); d != "" {
+			j.fail("value-differs/used-destination-"+k, fmt.Sprintf("%s into a %s that held another value: %s", v.S.String(), v.T.String(), d), raw)
+		}
+		st.usedDst++
+	}
+	{
+		keep := reflect.New(v.T.goType())
+		if guarded(func() { err = conversion.ConvertFrom(keep.Interface(), src.Interface()) }) == "" && err == nil {
+			// keep the LARGEST value seen for the type, so that later, smaller sources meet leftovers
+			if old, ok := c20Used[key]; !ok || c20Size(keep.Elem()) >= c20Size(old.Elem()) {
+				c20Used[key] = keep
+			}
+		}
 	}
 	// the way back
 	back, err, pn := c20Convert(&v.S, dst)
